@@ -412,7 +412,9 @@ fn integer_trait_cases(ctx: &mut Ctx) {
     let widths: [(u128, u128); 6] = [(8, 0), (16, 0), (32, 0), (64, 0), (64, 1), (128, 0)];
     for (w, us) in widths {
         let max: u128 = if w == 128 { u128::MAX } else { (1u128 << w) - 1 };
-        let lat: Vec<u128> = vec![0, 1, 2, max, max - 1, max >> 1, (max >> 1) + 1, 0x55 & max, max / 3, (1u128 << (w / 2)) & max, ((1u128 << (w / 2)) - 1) & max, ((1u128 << (w / 2)) + 1) & max];
+        let h = w / 2;
+        let lat: Vec<u128> = vec![0, 1, 2, max, max - 1, max >> 1, (max >> 1) + 1, 0x55 & max, max / 3, (1u128 << h) & max, ((1u128 << h) - 1) & max, ((1u128 << h) + 1) & max,
+                                  (2u128 << h) & max, (3u128 << h) & max, (max << h) & max, ((max << h) | 1) & max, (1u128 << (h - 1)) & max, ((1u128 << h) | (1u128 << (h - 1))) & max];
         for &a in &lat {
             for &b in &lat {
                 for cy in [0u128, 1, max] {
@@ -523,6 +525,38 @@ fn gen_c02(ctx: &mut Ctx) {
     let na = ctx.scale(8, 80);
     alias_cases(ctx, &[69, 70], na);
     division_lattice(ctx);
+    // a divisor LONGER than the dividend (bits set at and beyond the dividend's length and beyond 128), every storage
+    // mode of the dividend (inline, heap, heap-but-short), every form: the quotient is 0 or tiny, the remainder the dividend
+    for ka in [KA, KD, 8, 0, 11] {
+        for la in [1usize, 8, 64, 100, 127, 128] {
+            if la > kind_cap_or(ka, 100000) {
+                continue;
+            }
+            for dynmode in [false, true] {
+                for kb in [KD, KA, 9, 20] {
+                    for lb in [129usize, 130, 192, 256] {
+                        if lb > kind_cap_or(kb, 100000) {
+                            continue;
+                        }
+                        let al = rand_limbs(ctx, la);
+                        let a = make_val(ka, la, &al, ctx.rng.below(2) as usize, dynmode);
+                        let mut bl = vec![0u64; (lb + 63) / 64];
+                        match ctx.rng.below(4) {
+                            0 => { bl[2] = 1; }                                  // only bit 128
+                            1 => { bl[2] = 1; bl[0] = al.get(0).copied().unwrap_or(1) | 1; }   // bit 128 + the dividend's low word
+                            2 => { bl[0] = 3; let n = bl.len(); bl[n - 1] = 1; }
+                            _ => { bl[0] = (al.get(0).copied().unwrap_or(2) >> 1) | 1; }       // low part about half the dividend
+                        }
+                        let b = make_val(kb, lb, &bl, ctx.rng.below(2) as usize, ctx.rng.chance(1, 2));
+                        for form in 0..6 {
+                            ctx.emit(Case::new(69 + ctx.rng.below(2) as u32).form(form).val(a.clone()).val(b.clone()));
+                        }
+                        ctx.emit(Case::new(71).val(a).val(b));
+                    }
+                }
+            }
+        }
+    }
     // zero and empty dividends against zero and empty divisors: every form of /, % and div_rem must panic
     for ka in 0..NKINDS {
         for kb in 0..NKINDS {
@@ -871,7 +905,8 @@ fn observer_battery(ctx: &mut Ctx, a: &Val, n: u64) {
             4 => {
                 let sp = ctx.rng.pick(&FMT_SPECS);
                 // decimal formatting is quadratic in the model: only for moderately long vectors
-                let which = if a.len > 200 { 1 + ctx.rng.below(4) } else { ctx.rng.below(5) };
+                // decimal: the model is consulted up to 300 bits (slow above 200), beyond that the verdict is PROP only (cheap)
+                let which = if a.len > 200 && a.len <= 300 || a.len > 520 { 1 + ctx.rng.below(4) } else { ctx.rng.below(5) };
                 let mut c = Case::new(31).arg(which as u128);
                 for x in sp {
                     c = c.arg(x);
@@ -1096,8 +1131,35 @@ fn insert_alignment_cases(ctx: &mut Ctx) {
     }
 }
 
+/// extend with an iterator that understates what it will yield (legal: only the lower bound is a promise), on
+/// vectors that the extension carries across the inline limit of the auto type / up to and beyond a fixed capacity
+fn extend_understated_cases(ctx: &mut Ctx) {
+    for ka in [KA, KD, 8, 11, 4] {
+        let cap = kind_cap_or(ka, 100000);
+        for len0 in [0usize, 20, 90, 100, 120, 127, 128] {
+            if len0 > cap {
+                continue;
+            }
+            for g in [1usize, 8, 29, 40, 129] {
+                for (lo, mode) in [(0u128, 1u128), (0, 2), (0, 4), (1, 1), (g as u128 / 2, 4)] {
+                    for dynmode in [false, true] {
+                        if dynmode && ka != KA {
+                            continue;
+                        }
+                        let l = rand_limbs(ctx, len0);
+                        let a = make_val(ka, len0, &l, 0, dynmode);
+                        let bits = rand_bits(ctx, g);
+                        ctx.emit(Case::new(58).arg(lo).arg(mode).val(a).list(bits));
+                    }
+                }
+            }
+        }
+    }
+}
+
 fn gen_c07(ctx: &mut Ctx) {
     insert_alignment_cases(ctx);
+    extend_understated_cases(ctx);
     let all: Vec<u8> = (0..NKINDS).collect();
     let n = ctx.scale(2000, 40000);
     histories(ctx, n, 10, false, &all);
@@ -1388,7 +1450,7 @@ fn gen_c13(ctx: &mut Ctx) {
         for _ in 0..n {
             let a = rand_val(ctx, k);
             ctx.emit(Case::new(22).arg(ctx.rng.below(2) as u128).val(a.clone()));
-            ctx.emit(Case::new(23).arg(ctx.rng.below(2) as u128).arg(ctx.rng.below(3) as u128).val(a));
+            ctx.emit(Case::new(23).arg(ctx.rng.below(2) as u128).arg(ctx.rng.below(4) as u128).val(a));
             // from_bytes: around capacity
             let capb = kind_cap_or(k, 320) / 8;
             let nb = if ctx.rng.chance(1, 5) { capb + 1 + ctx.rng.below(2) as usize } else { ctx.rng.below(capb as u64 + 1) as usize };
@@ -1406,7 +1468,7 @@ fn gen_c13(ctx: &mut Ctx) {
                 _ => need,
             };
             let rd: Vec<u128> = (0..have).map(|_| if ctx.rng.chance(1, 2) { 0xff } else { ctx.rng.below(256) as u128 }).collect();
-            ctx.emit(Case::new(7).kind(k).arg(len as u128).arg(ctx.rng.below(2) as u128).arg(ctx.rng.below(3) as u128).list(rd));
+            ctx.emit(Case::new(7).kind(k).arg(len as u128).arg(ctx.rng.below(2) as u128).arg(ctx.rng.below(4) as u128).list(rd));
         }
     }
 }
@@ -1468,12 +1530,15 @@ fn decimal_structured(ctx: &mut Ctx, maxbits: usize) -> Vec<Vec<u64>> {
 }
 
 fn decimal_cases(ctx: &mut Ctx) {
-    let maxlen = if ctx.thorough { 400 } else { 200 };
+    let maxlen = if ctx.thorough { 1100 } else { 450 };
     for k in 0..NKINDS {
         let cap = kind_cap_or(k, maxlen).min(maxlen);
         for v in decimal_structured(ctx, cap) {
             let sb = sig_bits(&v);
             let len = (sb + ctx.rng.below(3) as usize).min(cap);
+            if len > 200 && len <= 300 && !ctx.rng.chance(1, 8) {
+                continue; // the band where the model is consulted and slow
+            }
             let a = make_val(k, len, &v, ctx.rng.below(2) as usize, ctx.rng.chance(1, 3));
             let sp = ctx.rng.pick(&FMT_SPECS);
             let mut c = Case::new(31).arg(0);
@@ -1484,7 +1549,29 @@ fn decimal_cases(ctx: &mut Ctx) {
     }
 }
 
+/// lengths at which 2^len barely exceeds a power of ten (an estimate of the number of decimal digits from the bit length
+/// is most likely to be one short exactly there), with the largest values
+fn digit_count_boundary_cases(ctx: &mut Ctx) {
+    // (the crate's own decimal conversion is cubic in the length too: the longest only in the thorough tier)
+    let lens: &[usize] = if ctx.thorough { &[10, 20, 30, 93, 103, 113, 196, 299, 392, 485, 578, 681, 877, 970, 1073, 1166, 1269, 1362] } else { &[10, 20, 30, 93, 103, 196, 299, 485, 681, 877] };
+    for k in [KD, KA, 20, 22, 16] {
+        for &len in lens {
+            // the model's decimal conversion is cubic in the length: the long ones only once in the quick tier
+            if len > kind_cap_or(k, 100000) || (!ctx.thorough && len > 700 && k != KD) {
+                continue;
+            }
+            let words = (len + 63) / 64;
+            let mut almost = vec![u64::MAX; words];
+            almost[0] = u64::MAX - ctx.rng.below(1000);
+            for (j, v) in [vec![u64::MAX; words], almost].into_iter().enumerate() {
+                ctx.emit(Case::new(31).arg(0).arg(0).arg(0).arg(0).arg(0).arg(32).arg(0).val(make_val(k, len, &v, 0, true)));
+            }
+        }
+    }
+}
+
 fn gen_c14(ctx: &mut Ctx) {
+    digit_count_boundary_cases(ctx);
     decimal_cases(ctx);
     zero_word_cases(ctx);
     let n = ctx.scale(12, 120);
@@ -1509,7 +1596,7 @@ fn gen_c14(ctx: &mut Ctx) {
                         _ => rand_val(ctx, k),
                     };
                     // decimal formatting of long vectors is quadratic in the model: cap the length
-                    if which == 0 && a.len > (if ctx.thorough { 400 } else { 200 }) {
+                    if which == 0 && (a.len > 200 && a.len <= 300 || a.len > (if ctx.thorough { 1100 } else { 520 })) {
                         continue;
                     }
                     let mut c = Case::new(31).arg(which);
@@ -1652,6 +1739,7 @@ fn gen_c17(ctx: &mut Ctx) {
 }
 
 fn gen_c18(ctx: &mut Ctx) {
+    extend_understated_cases(ctx);
     ctor_cases(ctx);
     let n = ctx.scale(2000, 12000);
     histories(ctx, n, 12, true, &[KD, KA, KD, KA, 8, 2]);
@@ -1721,7 +1809,7 @@ fn gen_c19(ctx: &mut Ctx) {
             let nb = cap / 8 + ctx.rng.below(3) as usize;
             let bytes: Vec<u128> = (0..nb).map(|_| ctx.rng.below(256) as u128).collect();
             ctx.emit(Case::new(6).kind(k).arg(ctx.rng.below(2) as u128).list(bytes.clone()));
-            ctx.emit(Case::new(7).kind(k).arg((cap + ctx.rng.below(3) as usize) as u128).arg(0).arg(ctx.rng.below(3) as u128).list(bytes));
+            ctx.emit(Case::new(7).kind(k).arg((cap + ctx.rng.below(3) as usize) as u128).arg(0).arg(ctx.rng.below(4) as u128).list(bytes));
             let s: Vec<u128> = (0..cap + ctx.rng.below(3) as usize).map(|_| 48 + ctx.rng.below(2) as u128).collect();
             ctx.emit(Case::new(4).kind(k).list(s));
             let s: Vec<u128> = (0..cap / 4 + ctx.rng.below(3) as usize).map(|_| 48 + ctx.rng.below(10) as u128).collect();
